@@ -50,6 +50,46 @@ def lib_part(ctx, r, n):
             ctx.sample({"input_response": resp, "converted_equal": res.get("ok", {}).get("output") == res.get("ok", {}).get("input")})
 
 
+def feature_variants(ctx, n):
+    """The library conversion in builds of sylvia with other cosmwasm feature sets (default = staking only; none; stargate only)."""
+    import subprocess
+    from .. import families_extra
+    bins = families_extra.nofeat_bins(ctx)
+    for b, (path, kinds) in bins.items():
+        rng = ctx.rng("c11f", b)
+        resps = []
+        for i in range(n):
+            resp = draw_response(rng, custom_msg=False, allow_custom=False, max_msgs=0)
+            resp["messages"] = [draw_submsg(rng, custom_msg=False, allow_custom=(rng.random() < 0.2), kinds=kinds) for _ in range(rng.choice([0, 1, 2, 3, 5]))]
+            resps.append(resp)
+        p = subprocess.run([path], input="".join(dumps(x) + "\n" for x in resps), stdout=subprocess.PIPE, text=True, timeout=600)
+        lines = p.stdout.splitlines()
+        if len(lines) != len(resps):
+            from ..framework import Inconclusive
+            raise Inconclusive(f"{b}: {len(lines)} answers for {len(resps)} inputs")
+        for resp, line in zip(resps, lines):
+            ctx.ev()
+            f = line.split("\t")
+            d = {"build": b, "response": resp, "answer": line[:400]}
+            kinds_in = sorted({next(iter(m["msg"])) for m in resp["messages"]})
+            if f[0] in ("PANIC", "DEC"):
+                ctx.violate(f"variant:{b}:{f[0].lower()}", f"{b}: conversion {f[0]} on a drawn response", d)
+            elif has_custom(resp):
+                if f[0] != "ERR":
+                    ctx.violate(f"variant:{b}:custom-accepted", f"{b}: response with a custom message converted", d)
+                else:
+                    ctx.nontrivial([b, "custom", dumps(resp)])
+            elif f[0] != "OK":
+                ctx.violate(f"variant:{b}:noncustom-rejected:" + "+".join(kinds_in), f"{b}: response without custom messages ({kinds_in}) failed: {line[:120]}", d)
+            elif json.loads(f[1]) != json.loads(f[2]):
+                ctx.violate(f"variant:{b}:altered", f"{b}: conversion altered the response", d)
+            elif resp["messages"]:
+                ctx.nontrivial([b, "ok", dumps(resp)])
+            for k in kinds_in:
+                ctx.count(f"{b}_msgkind_{k}")
+    ctx.cov["feature_variant_builds"] = sorted(bins)
+
+
 def e2e_prog(ctx, r, prog, n):
     """Contracts with a chain-custom message type: interfaces written for Empty must behave like native ones."""
     if not prog["custom"]["msg"] and not prog["custom"]["query"]:
@@ -114,7 +154,8 @@ def run(ctx):
                 "(b) exec and sudo through the entry points of contracts with custom msg/query types, for native interfaces and interfaces written for Empty; "
                 "non-trivial+distinct = distinct converted responses with >=1 sub-message, distinct failing responses with a custom message, "
                 "distinct bridged end-to-end calls")
-    ctx.assumptions = ["cosmwasm features as in the baseline suite (no cosmwasm_2_0: CosmosMsg::Any is never built)"]
+    ctx.assumptions = ["main corpus: cosmwasm features as in the baseline suite; the library conversion is additionally run in builds with default features only, "
+                       "no features, and stargate only (no cosmwasm_2_0: CosmosMsg::Any is never built)"]
     fam = ctx.family("general")
     r = fam.runner(sorted(fam.bins())[0])
     try:
@@ -127,3 +168,4 @@ def run(ctx):
         for p in progs:
             e2e_prog(ctx, r, p, n)
     fam.each_bin(per_bin)
+    feature_variants(ctx, ctx.pick(1500, 40000))
